@@ -1,7 +1,540 @@
 package main
 
-import "errors"
+// Engine-S source rewriter: typed AST rewriting of repo files onto the vsched shims.
+//   imports sync, sync/atomic, time, context  -> verifx/vsync, vatomic, vtime, vctx (same local name)
+//   go f(x)                                   -> vsched.Go(func(){ f(x') })   (non-constant args evaluated at the go statement)
+//   ch <- v ; <-ch ; v,ok := <-ch ; close(ch) ; len(ch) ; for range ch
+//                                             -> vsched.WaitSend/Recv/Recv2/Close/LenAny/RangeCh
+//   select { ... }                            -> vsched.SelectWait(...) ; select with Arm/ArmS on every channel
+//   for k, v := range <map>                   -> range vsched.RangeMap(m)   (canonical key order)
 
-func rewriteFile(src, dst string, rewrite bool, consts map[string]string) error {
-	return errors.New("engine S rewriter not built yet")
+import (
+	"bytes"
+	"encoding/json"
+	"fmt"
+	"go/ast"
+	"go/format"
+	"go/parser"
+	"go/token"
+	"go/types"
+	"os"
+	"path/filepath"
+	"strconv"
+	"strings"
+
+	"golang.org/x/tools/go/ast/astutil"
+	"golang.org/x/tools/go/packages"
+)
+
+const verifxPrefix = "github.com/daeuniverse/dae/verifx/"
+
+var shimImports = map[string]string{
+	"sync":        "vsync",
+	"sync/atomic": "vatomic",
+	"time":        "vtime",
+	"context":     "vctx",
+}
+
+type instrJob struct {
+	rel     string
+	rewrite bool
+	consts  map[string]string
+}
+
+// instrumentAll loads the packages containing the files (typed, through the overlay built so far) and rewrites them.
+func instrumentAll(repo, work string, overlay map[string]string, tags string, jobs []instrJob, noCtx bool) (map[string]string, error) {
+	out := map[string]string{}
+	// write a provisional overlay for `go list`
+	type ov struct{ Replace map[string]string }
+	ovPath := filepath.Join(work, "overlay.pre.json")
+	b, _ := json.Marshal(ov{overlay})
+	if err := os.WriteFile(ovPath, b, 0o644); err != nil {
+		return nil, err
+	}
+	cfgOverlay := map[string][]byte{}
+	for dst, src := range overlay {
+		data, err := os.ReadFile(src)
+		if err != nil {
+			return nil, err
+		}
+		cfgOverlay[dst] = data
+	}
+	dirs := map[string]bool{}
+	for _, j := range jobs {
+		dirs["./"+filepath.Dir(j.rel)] = true
+	}
+	var patterns []string
+	for d := range dirs {
+		patterns = append(patterns, d)
+	}
+	os.Setenv("PATH", "/opt/veriftools/go1.26.8/bin:"+os.Getenv("PATH"))
+	env := os.Environ()
+	env = append(env, "GOFLAGS=-mod=mod", "GOPROXY=off", "GOSUMDB=off", "GOTOOLCHAIN=local")
+	cfg := &packages.Config{
+		Mode: packages.NeedName | packages.NeedFiles | packages.NeedCompiledGoFiles | packages.NeedSyntax | packages.NeedTypes | packages.NeedTypesInfo | packages.NeedImports | packages.NeedDeps,
+		Dir:  repo, Env: env, Overlay: cfgOverlay,
+		BuildFlags: []string{"-tags", tags, "-overlay", ovPath, "-modfile", filepath.Join(work, "go.mod")},
+	}
+	pkgs, err := packages.Load(cfg, patterns...)
+	if err != nil {
+		return nil, fmt.Errorf("packages.Load: %w", err)
+	}
+	byFile := map[string]*packages.Package{}
+	fileAst := map[string]*ast.File{}
+	for _, p := range pkgs {
+		if len(p.Errors) > 0 {
+			return nil, fmt.Errorf("type errors in %s: %v", p.PkgPath, p.Errors[0])
+		}
+		for i, f := range p.CompiledGoFiles {
+			if i < len(p.Syntax) {
+				byFile[f] = p
+				fileAst[f] = p.Syntax[i]
+			}
+		}
+	}
+	for _, j := range jobs {
+		abs := filepath.Join(repo, j.rel)
+		p := byFile[abs]
+		if p == nil {
+			return nil, fmt.Errorf("%s: not part of a loaded package (build constraints?)", j.rel)
+		}
+		f := fileAst[abs]
+		rw := &rewriter{fset: p.Fset, info: p.TypesInfo, file: f, pkg: p.Types, noCtx: noCtx}
+		if len(j.consts) > 0 {
+			if err := rw.overrideConsts(j.consts); err != nil {
+				return nil, fmt.Errorf("%s: %w", j.rel, err)
+			}
+		}
+		if j.rewrite {
+			if err := rw.run(); err != nil {
+				return nil, fmt.Errorf("%s: %w", j.rel, err)
+			}
+		}
+		var buf bytes.Buffer
+		if err := format.Node(&buf, p.Fset, f); err != nil {
+			return nil, fmt.Errorf("%s: print: %w", j.rel, err)
+		}
+		dst := filepath.Join(work, "gen", "instr", j.rel)
+		os.MkdirAll(filepath.Dir(dst), 0o755)
+		if err := os.WriteFile(dst, buf.Bytes(), 0o644); err != nil {
+			return nil, err
+		}
+		out[abs] = dst
+	}
+	return out, nil
+}
+
+type rewriter struct {
+	fset    *token.FileSet
+	info    *types.Info
+	file    *ast.File
+	pkg     *types.Package
+	tmpN    int
+	needSch bool
+	errs    []string
+	noCtx   bool
+}
+
+func (r *rewriter) errf(n ast.Node, f string, a ...any) {
+	r.errs = append(r.errs, fmt.Sprintf("%s: %s", r.fset.Position(n.Pos()), fmt.Sprintf(f, a...)))
+}
+
+func (r *rewriter) overrideConsts(m map[string]string) error {
+	done := map[string]bool{}
+	for _, d := range r.file.Decls {
+		gd, ok := d.(*ast.GenDecl)
+		if !ok || (gd.Tok != token.CONST && gd.Tok != token.VAR) {
+			continue
+		}
+		for _, s := range gd.Specs {
+			vs := s.(*ast.ValueSpec)
+			for i, n := range vs.Names {
+				if expr, ok := m[n.Name]; ok && i < len(vs.Values) {
+					e, err := parseExpr(expr)
+					if err != nil {
+						return err
+					}
+					vs.Values[i] = e
+					done[n.Name] = true
+				}
+			}
+		}
+	}
+	for k := range m {
+		if !done[k] {
+			return fmt.Errorf("const_override: %s not found", k)
+		}
+	}
+	return nil
+}
+
+func parseExpr(s string) (ast.Expr, error) {
+	return parserParseExpr(s)
+}
+
+func (r *rewriter) tmp(prefix string) *ast.Ident {
+	r.tmpN++
+	return ast.NewIdent(fmt.Sprintf("vs_%s%d", prefix, r.tmpN))
+}
+
+func sel(pkg, name string) ast.Expr {
+	return &ast.SelectorExpr{X: ast.NewIdent(pkg), Sel: ast.NewIdent(name)}
+}
+
+func call(fn ast.Expr, args ...ast.Expr) *ast.CallExpr { return &ast.CallExpr{Fun: fn, Args: args} }
+
+func (r *rewriter) typeOf(e ast.Expr) types.Type {
+	if tv, ok := r.info.Types[e]; ok {
+		return tv.Type
+	}
+	return nil
+}
+
+func (r *rewriter) isChan(e ast.Expr) bool {
+	t := r.typeOf(e)
+	if t == nil {
+		return false
+	}
+	_, ok := t.Underlying().(*types.Chan)
+	if ok {
+		return true
+	}
+	// type parameters with chan core type: not used in this code base
+	return false
+}
+
+func (r *rewriter) isMap(e ast.Expr) bool {
+	t := r.typeOf(e)
+	if t == nil {
+		return false
+	}
+	_, ok := t.Underlying().(*types.Map)
+	return ok
+}
+
+func (r *rewriter) isBuiltin(id *ast.Ident, name string) bool {
+	if id.Name != name {
+		return false
+	}
+	_, ok := r.info.Uses[id].(*types.Builtin)
+	return ok
+}
+
+func hasCall(e ast.Expr) bool {
+	found := false
+	ast.Inspect(e, func(n ast.Node) bool {
+		switch n.(type) {
+		case *ast.CallExpr:
+			found = true
+		case *ast.UnaryExpr:
+			if n.(*ast.UnaryExpr).Op == token.ARROW {
+				found = true
+			}
+		case *ast.FuncLit:
+			return false
+		}
+		return !found
+	})
+	return found
+}
+
+func (r *rewriter) run() error {
+	// 1. imports
+	for _, is := range r.file.Imports {
+		p, _ := strconv.Unquote(is.Path.Value)
+		shim, ok := shimImports[p]
+		if !ok || (p == "context" && r.noCtx) {
+			continue
+		}
+		if is.Name == nil {
+			base := p[strings.LastIndex(p, "/")+1:]
+			is.Name = ast.NewIdent(base)
+		}
+		is.Path.Value = strconv.Quote(verifxPrefix + shim)
+		is.EndPos = 0
+	}
+	// 2. statements and expressions
+	astutil.Apply(r.file, r.pre, r.post)
+	if len(r.errs) > 0 {
+		return fmt.Errorf("rewriter cannot handle:\n  %s", strings.Join(r.errs, "\n  "))
+	}
+	if r.needSch {
+		astutil.AddNamedImport(r.fset, r.file, "vsched", verifxPrefix+"vsched")
+	}
+	return nil
+}
+
+// pre handles constructs that must be lowered before their children are visited (select: comm clauses).
+func (r *rewriter) pre(c *astutil.Cursor) bool {
+	switch n := c.Node().(type) {
+	case *ast.LabeledStmt:
+		if sl, ok := n.Stmt.(*ast.SelectStmt); ok && !selectDone[sl] {
+			pre := r.buildSelect(sl)
+			if pre == nil {
+				return true
+			}
+			if !r.inStmtList(c) {
+				r.errf(n, "labeled select outside a statement list")
+				return true
+			}
+			c.Replace(&ast.BlockStmt{List: append(pre, n)})
+		}
+	case *ast.SelectStmt:
+		if selectDone[n] {
+			return true
+		}
+		pre := r.buildSelect(n)
+		if pre == nil {
+			return true
+		}
+		if !r.inStmtList(c) {
+			r.errf(n, "select statement outside a statement list")
+			return true
+		}
+		c.Replace(&ast.BlockStmt{List: append(pre, n)})
+	}
+	return true
+}
+
+var selectDone = map[*ast.SelectStmt]bool{}
+
+var lowered = map[ast.Node]bool{} // comm statements of lowered selects: must not be rewritten again
+
+func (r *rewriter) post(c *astutil.Cursor) bool {
+	switch n := c.Node().(type) {
+	case *ast.GoStmt:
+		r.lowerGo(c, n)
+	case *ast.SendStmt:
+		if lowered[n] {
+			return true
+		}
+		r.lowerSend(c, n)
+	case *ast.UnaryExpr:
+		if n.Op == token.ARROW && !lowered[n] {
+			r.lowerRecv(c, n)
+		}
+	case *ast.CallExpr:
+		if id, ok := n.Fun.(*ast.Ident); ok && len(n.Args) == 1 {
+			if r.isBuiltin(id, "close") && r.isChan(n.Args[0]) {
+				r.needSch = true
+				n.Fun = sel("vsched", "Close")
+			} else if r.isBuiltin(id, "len") && r.isChan(n.Args[0]) {
+				r.needSch = true
+				n.Fun = sel("vsched", "LenAny")
+			}
+		}
+	case *ast.RangeStmt:
+		if n.X != nil {
+			if r.isChan(n.X) {
+				r.needSch = true
+				n.X = call(sel("vsched", "RangeCh"), n.X)
+			} else if r.isMap(n.X) {
+				r.needSch = true
+				n.X = call(sel("vsched", "RangeMap"), n.X)
+			}
+		}
+	}
+	return true
+}
+
+func (r *rewriter) inStmtList(c *astutil.Cursor) bool {
+	switch c.Parent().(type) {
+	case *ast.BlockStmt, *ast.CaseClause, *ast.CommClause, *ast.LabeledStmt:
+		return true
+	}
+	return false
+}
+
+func (r *rewriter) lowerGo(c *astutil.Cursor, n *ast.GoStmt) {
+	r.needSch = true
+	var pre []ast.Stmt
+	callE := n.Call
+	// function value: evaluate now unless it is a literal or a plain package-level func / method on an identifier
+	if _, isLit := callE.Fun.(*ast.FuncLit); !isLit {
+		if hasCall(callE.Fun) {
+			t := r.tmp("f")
+			pre = append(pre, &ast.AssignStmt{Lhs: []ast.Expr{t}, Tok: token.DEFINE, Rhs: []ast.Expr{callE.Fun}})
+			callE.Fun = t
+		} else if se, ok := callE.Fun.(*ast.SelectorExpr); ok {
+			// method value binds the receiver now (q.convoy): hoist unless it is a package-qualified function
+			if _, isPkg := r.info.Uses[rootIdent(se.X)].(*types.PkgName); !(isPkg && isIdent(se.X)) {
+				t := r.tmp("f")
+				pre = append(pre, &ast.AssignStmt{Lhs: []ast.Expr{t}, Tok: token.DEFINE, Rhs: []ast.Expr{callE.Fun}})
+				callE.Fun = t
+			}
+		}
+	}
+	for i, a := range callE.Args {
+		tv, ok := r.info.Types[a]
+		if ok && (tv.Value != nil || tv.IsNil()) {
+			continue // constants and nil stay inline (keeps untyped conversion rules)
+		}
+		if _, isLit := a.(*ast.FuncLit); isLit {
+			continue
+		}
+		if ok {
+			if b, isBasic := tv.Type.(*types.Basic); isBasic && b.Info()&types.IsUntyped != 0 {
+				continue
+			}
+		}
+		t := r.tmp("a")
+		pre = append(pre, &ast.AssignStmt{Lhs: []ast.Expr{t}, Tok: token.DEFINE, Rhs: []ast.Expr{a}})
+		callE.Args[i] = t
+	}
+	var fn ast.Expr
+	if lit, ok := callE.Fun.(*ast.FuncLit); ok && len(callE.Args) == 0 && lit.Type.Results == nil {
+		fn = lit
+	} else {
+		fn = &ast.FuncLit{Type: &ast.FuncType{Params: &ast.FieldList{}}, Body: &ast.BlockStmt{List: []ast.Stmt{&ast.ExprStmt{X: callE}}}}
+	}
+	goCall := &ast.ExprStmt{X: call(sel("vsched", "Go"), fn)}
+	if len(pre) == 0 {
+		c.Replace(goCall)
+		return
+	}
+	c.Replace(&ast.BlockStmt{List: append(pre, goCall)})
+}
+
+func isIdent(e ast.Expr) bool { _, ok := e.(*ast.Ident); return ok }
+
+func rootIdent(e ast.Expr) *ast.Ident {
+	for {
+		switch x := e.(type) {
+		case *ast.Ident:
+			return x
+		case *ast.SelectorExpr:
+			e = x.X
+		case *ast.ParenExpr:
+			e = x.X
+		case *ast.StarExpr:
+			e = x.X
+		case *ast.IndexExpr:
+			e = x.X
+		case *ast.CallExpr:
+			e = x.Fun
+		default:
+			return ast.NewIdent("_")
+		}
+	}
+}
+
+func (r *rewriter) lowerSend(c *astutil.Cursor, n *ast.SendStmt) {
+	r.needSch = true
+	if !r.inStmtList(c) {
+		r.errf(n, "send statement outside a statement list")
+		return
+	}
+	var list []ast.Stmt
+	ch := n.Chan
+	if hasCall(ch) {
+		t := r.tmp("c")
+		list = append(list, &ast.AssignStmt{Lhs: []ast.Expr{t}, Tok: token.DEFINE, Rhs: []ast.Expr{ch}})
+		ch = t
+	}
+	list = append(list, &ast.ExprStmt{X: call(sel("vsched", "WaitSend"), ch)})
+	ns := &ast.SendStmt{Chan: ch, Value: n.Value}
+	lowered[ns] = true
+	list = append(list, ns)
+	c.Replace(&ast.BlockStmt{List: list})
+}
+
+func (r *rewriter) lowerRecv(c *astutil.Cursor, n *ast.UnaryExpr) {
+	r.needSch = true
+	fn := "Recv"
+	switch p := c.Parent().(type) {
+	case *ast.AssignStmt:
+		if len(p.Lhs) == 2 && len(p.Rhs) == 1 && p.Rhs[0] == ast.Expr(n) {
+			fn = "Recv2"
+		}
+	case *ast.ValueSpec:
+		if len(p.Names) == 2 && len(p.Values) == 1 && p.Values[0] == ast.Expr(n) {
+			fn = "Recv2"
+		}
+	}
+	c.Replace(call(sel("vsched", fn), n.X))
+}
+
+func (r *rewriter) buildSelect(n *ast.SelectStmt) []ast.Stmt {
+	r.needSch = true
+	selectDone[n] = true
+	hasDefault := false
+	var pre []ast.Stmt
+	var cases []ast.Expr
+	idx := 0
+	for _, cl := range n.Body.List {
+		cc := cl.(*ast.CommClause)
+		if cc.Comm == nil {
+			hasDefault = true
+			continue
+		}
+		hoist := func(ch ast.Expr) ast.Expr {
+			if hasCall(ch) {
+				if hasRecv(ch) {
+					r.errf(ch, "receive inside a select channel expression")
+				}
+				// the channel expression itself may contain receives/calls that the post-pass must still rewrite:
+				// it is moved in front of the select where the normal rewriting applies.
+				t := r.tmp("c")
+				pre = append(pre, &ast.AssignStmt{Lhs: []ast.Expr{t}, Tok: token.DEFINE, Rhs: []ast.Expr{ch}})
+				return t
+			}
+			return ch
+		}
+		switch s := cc.Comm.(type) {
+		case *ast.SendStmt:
+			ch := hoist(s.Chan)
+			cases = append(cases, call(sel("vsched", "S"), ch))
+			s.Chan = call(sel("vsched", "ArmS"), &ast.BasicLit{Kind: token.INT, Value: strconv.Itoa(idx)}, ch)
+			lowered[s] = true
+		case *ast.ExprStmt:
+			u, ok := s.X.(*ast.UnaryExpr)
+			if !ok || u.Op != token.ARROW {
+				r.errf(s, "unexpected select comm")
+				return nil
+			}
+			ch := hoist(u.X)
+			cases = append(cases, call(sel("vsched", "R"), ch))
+			u.X = call(sel("vsched", "Arm"), &ast.BasicLit{Kind: token.INT, Value: strconv.Itoa(idx)}, ch)
+			lowered[u] = true
+		case *ast.AssignStmt:
+			u, ok := s.Rhs[0].(*ast.UnaryExpr)
+			if !ok || u.Op != token.ARROW {
+				r.errf(s, "unexpected select comm")
+				return nil
+			}
+			ch := hoist(u.X)
+			cases = append(cases, call(sel("vsched", "R"), ch))
+			u.X = call(sel("vsched", "Arm"), &ast.BasicLit{Kind: token.INT, Value: strconv.Itoa(idx)}, ch)
+			lowered[u] = true
+		default:
+			r.errf(s, "unexpected select comm")
+			return nil
+		}
+		idx++
+	}
+	hd := "false"
+	if hasDefault {
+		hd = "true"
+	}
+	args := append([]ast.Expr{ast.NewIdent(hd)}, cases...)
+	pre = append(pre, &ast.ExprStmt{X: call(sel("vsched", "SelectWait"), args...)})
+	return pre
+}
+
+func hasRecv(e ast.Expr) bool {
+	found := false
+	ast.Inspect(e, func(n ast.Node) bool {
+		if u, ok := n.(*ast.UnaryExpr); ok && u.Op == token.ARROW {
+			found = true
+		}
+		if _, ok := n.(*ast.FuncLit); ok {
+			return false
+		}
+		return !found
+	})
+	return found
+}
+
+func parserParseExpr(s string) (ast.Expr, error) {
+	return parser.ParseExpr(s)
 }
